@@ -73,13 +73,19 @@ ATTRS = ("destination", "param", "power", "address", "broadcast", "instance", "p
 
 def fp(cmd):
     """Fingerprint of a decoded command: class, frame, text, public attribute values."""
-    parts = [type(cmd).__module__, type(cmd).__qualname__, len(cmd.frame), cmd.frame.as_integer, str(cmd)]
+    try:
+        text = str(cmd)
+    except Exception as e:  # noqa - reported by decode_check; the fingerprint must not crash on it
+        text = "<str() raised %s>" % type(e).__name__
+    parts = [type(cmd).__module__, type(cmd).__qualname__, len(cmd.frame), cmd.frame.as_integer, text]
     for a in ATTRS:
+        if not hasattr(type(cmd), a) and a not in getattr(cmd, "__dict__", {}):
+            continue
         try:
             v = getattr(cmd, a)
-        except AttributeError:
-            continue
-        parts.append("%s=%s/%s" % (a, type(v).__name__, str(v)))
+            parts.append("%s=%s/%s" % (a, type(v).__name__, str(v)))
+        except Exception as e:  # noqa
+            parts.append("%s=<raised %s>" % (a, type(e).__name__))
     return "|".join(map(str, parts))
 
 
@@ -144,8 +150,11 @@ def probe_fingerprints():
     command, frame = _load()
     out = []
     for bits, v, dt, mc, um in probe_inputs():
-        c = command.from_frame(frame.ForwardFrame(bits, v), devicetype=dt, dev_inst_map=get_map(mc) if um else None)
-        out.append(fp(c))
+        try:
+            c = command.from_frame(frame.ForwardFrame(bits, v), devicetype=dt, dev_inst_map=get_map(mc) if um else None)
+            out.append(fp(c))
+        except Exception as e:  # noqa - a decode failure is reported by the enumeration; keep the probe total
+            out.append("<decode raised %s>" % type(e).__name__)
     return out
 
 
